@@ -187,14 +187,31 @@ pub fn fault_phase<V: VecLike>(ex: &mut VecExec<V>, rng: &mut Rng, exhaustive_tr
         let vpath = dir.join(victim_state.stamp.to_string());
         if let Ok(vorig) = fs::read(&vpath) {
             let cut = if vorig.len() > 9 { rng.range(8, vorig.len() - 1) } else { 0 };
-            fs::write(&vpath, &vorig[..cut]).expect("damage older record");
+            // the older record is truncated or deleted; the target is below everything or exactly
+            // the stamp whose record is unusable (the walk then ends *at* the gap)
+            // A deleted *oldest* retained record is indistinguishable from a shorter retention
+            // window (rollback_before then stops there and returns the stamp it reached, as it
+            // does at the end of the window): deletion is only injected where an older record
+            // exists below the gap, which is what makes the gap recognisable.
+            let older_exists = k + 1 < depth && dir.join(ex.model.chain[pos - k - 1].stamp.to_string()).exists();
+            let (how, target) = match rng.below(8) {
+                0..=3 if older_exists => ("deleted", victim_state.stamp),
+                4 | 5 if older_exists => ("deleted", 0),
+                1 | 3 | 5 | 6 => ("truncated", victim_state.stamp),
+                _ => ("truncated", 0),
+            };
+            if how == "truncated" {
+                fs::write(&vpath, &vorig[..cut]).expect("damage older record");
+            } else {
+                fs::remove_file(&vpath).expect("delete older record");
+            }
             st.faults += 1;
-            *st.by_kind.entry("rollback_before:older-record-truncated".into()).or_insert(0) += 1;
-            let r = crate::common::catch(|| ex.vm().v_rollback_before(0));
+            *st.by_kind.entry(format!("rollback_before:older-record-{how}:target={}", if target == 0 { "below-all" } else { "the-gap" })).or_insert(0) += 1;
+            let r = crate::common::catch(|| ex.vm().v_rollback_before(target));
             fs::write(&vpath, &vorig).expect("restore older record");
             match r {
-                Err(p) => return Err(VMismatch { sig: format!("fault|rollback_before|panic|{}", crate::common::normalize_msg(&p)), what: format!("rollback_before panicked on a truncated record: {p}") }),
-                Ok(Ok(s)) => return Err(VMismatch { sig: "fault|rollback_before|damaged-record-applied".into(), what: format!("rollback_before(0) returned Ok({s}) although the record of stamp {} was truncated to {cut} bytes", victim_state.stamp) }),
+                Err(p) => return Err(VMismatch { sig: format!("fault|rollback_before|panic|{}", crate::common::normalize_msg(&p)), what: format!("rollback_before panicked on a {how} record: {p}") }),
+                Ok(Ok(s)) => return Err(VMismatch { sig: format!("fault|rollback_before|{how}-record-not-refused"), what: format!("rollback_before({target}) returned Ok({s}) although the record of stamp {} was {how}", victim_state.stamp) }),
                 Ok(Err(_)) => {
                     for _ in 0..k {
                         let o = ex.model.apply(&VOp::Rollback);
